@@ -33,10 +33,15 @@ Rect(p, L) == << <<L*p.t0, L*p.w0>>, <<L*p.t1, L*p.w0>>, <<L*p.t1, L*p.w1>>, <<L
 Shear(poly, dd)     == [ i \in 1..Len(poly) |-> << poly[i][1] + dd * poly[i][2], poly[i][2] >> ]
 ShearAll(polys, dd) == [ k \in 1..Len(polys) |-> Shear(polys[k], dd) ]
 
-ExactQuot(a, b) ==
+(* For the correct procedure every clip vertex is an integer (the scale L sees to that); if  *)
+(* not, the scale is wrong and the run stops.  A WRONG variant (negative control) may well    *)
+(* produce non-integer crossings: the quotient is then rounded down, so that the run goes on  *)
+(* until TLC reports the invariant the variant violates (and not, depending on the order in   *)
+(* which the workers pick the states, this assertion first).                                   *)
+ExactQuot(a, b, bug) ==
     LET aa == IF b < 0 THEN -a ELSE a
         bb == IF b < 0 THEN -b ELSE b
-    IN IF aa % bb = 0 THEN aa \div bb
+    IN IF aa % bb = 0 \/ bug # "none" THEN aa \div bb
        ELSE Assert(FALSE, <<"clip vertex is not an integer: the scale L is wrong", a, b>>)
 
 InsideHalfPlane(v, time, closeToOpen) == IF closeToOpen THEN v[1] >= time ELSE v[1] <= time
@@ -44,7 +49,7 @@ InsideHalfPlane(v, time, closeToOpen) == IF closeToOpen THEN v[1] >= time ELSE v
 (* wavelength where the edge a -> b crosses t = time:  w_a + (time - t_a)(w_b - w_a)/(t_b - t_a) *)
 (* (the same number as (1-s) w_a + s w_b with s = (time - t_a)/(t_b - t_a))                   *)
 CrossingW(a, b, time, c2o, bug) ==
-    LET q == ExactQuot((time - a[1]) * (b[2] - a[2]), b[1] - a[1])
+    LET q == ExactQuot((time - a[1]) * (b[2] - a[2]), b[1] - a[1], bug)
     IN IF bug = "interpsign" THEN a[2] - q
        ELSE IF bug = "tiebreak" /\ a[2] = b[2] THEN (IF c2o THEN a[2] + 1 ELSE a[2] - 1)
        ELSE a[2] + q
@@ -71,9 +76,17 @@ ClipWindow(poly, w, L, bug) ==
        ELSE LET b == Clip(a, L * w[2], bug = "orientation", bug)
             IN IF b = <<>> THEN <<>> ELSE <<b>>
 
+(* The windows of a chopper are applied IN THE ORDER THEY ARE LISTED, which need not be the   *)
+(* order in time (the API asks for no order; a disk turning anticlockwise lists the openings *)
+(* of one rotation in decreasing order).  bug = "breaksorted": the loop over the windows     *)
+(* stops at the first window that opens after the subframe has ended - right only for        *)
+(* windows listed by increasing time.                                                        *)
+PolyEnd(poly) == CHOOSE x \in { poly[i][1] : i \in 1..Len(poly) } :
+                    \A y \in { poly[i][1] : i \in 1..Len(poly) } : x >= y
 RECURSIVE OverWindows(_, _, _, _, _)
 OverWindows(poly, win, m, L, bug) ==
     IF m > Len(win) THEN <<>>
+    ELSE IF bug = "breaksorted" /\ L * win[m][1] > PolyEnd(poly) THEN <<>>
     ELSE ClipWindow(poly, win[m], L, bug) \o OverWindows(poly, win, m + 1, L, bug)
 
 RECURSIVE OverPolys(_, _, _, _, _)
@@ -106,8 +119,30 @@ ApplyInOrder(frame, cs, L, bug) ==
 ChopList(frame, cs, L, bug) ==
     ApplyInOrder(frame, IF bug = "nosort" THEN cs ELSE SortByDist(cs), L, bug)
 
+(* Frame.propagate_to: shear by the signed difference of the distances - propagating back    *)
+(* towards the source is allowed (the acceptance diagram does it).  bug = "absdelta": the    *)
+(* magnitude of the difference is used.                                                       *)
 PropagateFrame(frame, d, bug) ==
-    [d |-> d, polys |-> ShearAll(frame.polys, IF bug = "propabs" THEN d ELSE d - frame.d)]
+    [d |-> d, polys |-> ShearAll(frame.polys,
+                                 IF bug = "propabs" THEN d
+                                 ELSE IF bug = "absdelta" /\ d < frame.d THEN frame.d - d
+                                 ELSE d - frame.d)]
+
+(* FrameSequence: the source frame followed by one frame per chopper, by increasing distance. *)
+(* __getitem__(d): the last frame that is not beyond d, propagated to d.                      *)
+(* bug = "getlast": the last frame of the sequence is taken whatever d is.                    *)
+RECURSIVE FramesFrom(_, _, _)
+FramesFrom(frame, cs, L) ==
+    IF cs = <<>> THEN <<frame>>
+    ELSE <<frame>> \o FramesFrom([d |-> Head(cs).d, polys |-> ChopPolys(frame.polys, frame.d, Head(cs), L, "none")],
+                                 Tail(cs), L)
+FrameSeq(src, cs, L) == FramesFrom(src, SortByDist(cs), L)
+GetAt(frames, d, bug) ==
+    LET notBeyond == { i \in 1..Len(frames) : \A j \in 1..i : frames[j].d <= d }
+        k == IF bug = "getlast" THEN Len(frames)
+             ELSE CHOOSE i \in notBeyond : \A j \in notBeyond : i >= j
+    IN PropagateFrame(frames[k], d, "none")
+UpTo(cs, d) == SelectSeq(cs, LAMBDA c : c.d <= d)
 
 -----------------------------------------------------------------------------
 (* judgements                                                                                 *)
